@@ -65,7 +65,7 @@ def rand_blocks(rnd, n=None, fault=True):
         k = blocks[b]['kind']
         opts = ['start', 'stop']
         if k in ('plain', 'pplain', 'trig'):
-            opts += ['init_regular', 'handler', 'handler']
+            opts += ['init_regular', 'init_regular_once', 'handler', 'handler']
         if k == 'cb':
             opts = ['eval']
         if k == 'vp':
@@ -157,7 +157,8 @@ def signature(stim, trace, why):
     e = why.get('event') or {}
     detail = ''
     if e.get('ev') == 'after':
-        names = ','.join(sorted({n.split(' for ')[0] for n in e.get('names', [])}))
+        import re
+        names = ','.join(sorted({re.sub(r'Task-\d+', 'Task-N', n.split(' for ')[0]) for n in e.get('names', [])}))
         detail = f":tasks={min(e.get('tasks', 0), 1)}:timers={min(e.get('timers', 0), 1)}:{names}"
     elif e.get('ev') in ('stop', 'sa_begin', 'sa_end', 'start'):
         detail = ':' + stim['blocks'][e['b'] - 1]['kind']
